@@ -276,7 +276,7 @@ func (e *Engine) havocPtr(st *State, p *Ptr) {
 func (e *Engine) callUnknown(fr *Frame, st *State, name string, args []Val, resT types.Type, pos string) Val {
 	e.note("call to " + shortName(name) + " without contract: heap havocked, result unconstrained")
 	for _, a := range args {
-		if a.K == KPtr {
+		if a.K == KPtr || (a.K == KIface && a.P != nil) {
 			e.havocPtr(st, a.P)
 		}
 		if a.K == KClosure {
@@ -377,6 +377,11 @@ func (e *Engine) callModular(fr *Frame, st *State, fc *FuncContract, name string
 		}
 		e.havocAll(st)
 	default:
+		for _, a := range args {
+			if (a.K == KPtr || (a.K == KIface && a.P != nil)) && fc.Trusted {
+				e.havocPtr(st, a.P) // a trusted callee may write through pointer arguments
+			}
+		}
 		for _, a := range fc.Assigns {
 			e.havocLocation(env, st, a)
 		}
